@@ -206,6 +206,7 @@ namespace xtl
         pointer operator->() const;
 
         bool operator==(const self_type& rhs) const;
+        bool operator<(const self_type& rhs) const;
 
     private:
 
@@ -572,6 +573,12 @@ namespace xtl
     inline bool xcomplex_iterator<IT, B>::operator==(const self_type& rhs) const
     {
         return m_it_real == rhs.m_it_real && m_it_imag == rhs.m_it_imag;
+    }
+
+    template <class IT, bool B>
+    inline bool xcomplex_iterator<IT, B>::operator<(const self_type& rhs) const
+    {
+        return m_it_real < rhs.m_it_real && m_it_imag < rhs.m_it_imag;
     }
 }
 
